@@ -16,7 +16,7 @@ THEOREMS = [A + x for x in (
     "expand_only_when_full", "register_first_free", "slot_reuse", "freed_slot_is_free",
     "capacity_sequence", "capacity_closed_form", "used_counts_exact", "registry_matches_alloc",
     "tls_matches_slot", "registration_never_fails", "exit_unregisters", "exit_enabled",
-    "prune_keeps_only_forking_thread", "unmap_only_when_empty", "inv_step", "capsOk_step",
+    "prune_keeps_only_forking_thread", "unmap_only_when_empty", "find_chunk_correct", "inv_step", "capsOk_step",
     "init_reader_count_pos",
     "Sig.registration_signal_atomic", "Sig.never_registered_twice", "Sig.registry_lock_never_self_deadlocks",
     "Sig.init_lock_never_self_deadlocks", "Sig.section_has_reader", "Sig.signal_safe", "Sig.inv_step",
@@ -55,9 +55,17 @@ def build():
     return vlib.cc("bp_arena", srcs, ["-w"])
 
 
-def run_one(args):
+def build_san():
+    """thorough tier: the same TU under AddressSanitizer + UBSan (alignment check off: cds_list_for_each_entry computes
+    container_of on the list head)"""
+    srcs = [os.path.join(vlib.HARN, "scen", "bp_arena.c")] + vlib.rsrc("compat_arch.c", "compat_futex.c")
+    return vlib.cc("bp_arena_asan", srcs, ["-w", "-fsanitize=address,undefined", "-fno-sanitize=alignment",
+                                           "-fno-sanitize-recover=undefined"])
+
+
+def run_one(args, binary=None):
     """returns (verdict, detail, driver_summary); verdict in ok|diverge|oracle|deadlock|crash"""
-    cmd = [BIN] + [str(a) for a in args]
+    cmd = [binary or BIN] + [str(a) for a in args]
     rc, out, err = vlib.sh2(cmd, timeout=120)
     if rc not in (0, 3, 4):
         return "crash", {"cmd": cmd, "rc": rc, "stderr": err[-800:], "last_lines": out.strip().splitlines()[-4:]}, ""
@@ -124,8 +132,16 @@ def run_part(chk):
     hist, nontriv, bad = {}, set(), None
     maxes = {"max_live": 0, "max_chunks": 0, "max_cap": 0}
     nruns = 0
-    for mode, sd, nops in plan(chk):
-        v, d, dout = run_one([mode, sd, nops])
+    runs = [(m, sd, n, None) for m, sd, n in plan(chk)]
+    if chk.tier == "thorough":
+        ok, log = build_san()
+        if ok:
+            runs += [(m, chk.seed * 100000 + 90000 + k, 600, BIN + "_asan") for k in range(60) for m in ("sim", "thr")]
+            cov["sanitizer_runs"] = 120
+        else:
+            chk.notes.append("bp_arena: sanitizer build failed: " + log[-300:])
+    for mode, sd, nops, binary in runs:
+        v, d, dout = run_one([mode, sd, nops], binary)
         chk.cov["evaluations"] += 1
         nruns += 1
         if v != "ok":
@@ -213,7 +229,11 @@ def replay(rp):
         print(log)
         return 2
     if "cmd" in rp:
-        v, d, dout = run_one(rp["cmd"][1:])
+        binary = None
+        if str(rp["cmd"][0]).endswith("_asan"):
+            ok, log = build_san()
+            binary = BIN + "_asan" if ok else None
+        v, d, dout = run_one(rp["cmd"][1:], binary)
         for ln in d.get("oracle", []):
             print(ln)
         print(d.get("stderr", ""))
